@@ -23,7 +23,7 @@ def run(tier):
     ck = Check(PID, tier, "model_checking")
     ck.cov["rule"] = ("HintInstance.tla models the in-place reconfiguration of the hinting instance field by field "
                       "(provenance of every retained buffer) and TLC checks Fresh / FailedIsNone / DrawPure over all "
-                      "histories of length <= 2 (quick) or 3 (thorough) over a catalogue of 25 configurations (two "
+                      "histories of length <= 2 (quick) or 3 (thorough) over a catalogue of 27 configurations (two "
                       "synthetic TrueType fonts whose glyph programs expose storage, CVT, twilight zone, FDEF and IDEF "
                       "state as point coordinates, a font with a failing prep, a synthetic font whose prep changes graphics state (control value cut-in, INSTCTRL) by size, a font of degenerate contours, tinos at a size where its prep switches hinting off, three variable fonts at the default location, five corpus fonts with TrueType "
                       "instructions / cvar / gvar, CFF, CFF2, and the auto-hinter); every history is replayed on one "
